@@ -11,7 +11,7 @@
    algorithm equal to CRC-32/MPEG-2, whence "the CRC of the whole section is zero". *)
 From Gots Require Import Base.Prelude Model.Pts Model.Scte Model.ScteEnc Spec.Scte35Spec
   Proofs.ScteExpected Proofs.ScteLogical Proofs.ScteDecode Proofs.ScteEncode Proofs.ScteRoundtrip Proofs.ScteSetters
-  Proofs.ScteCanonical Proofs.ScteClean Proofs.ScteWitness Proofs.ScteReflected Proofs.ScteNormalB Proofs.ScteEncBytes.
+  Proofs.ScteCanonical Proofs.ScteClean Proofs.ScteWitness Proofs.ScteReflected Proofs.ScteNormalB Proofs.ScteEncBytes Proofs.ScteBuild.
 Import Scte ScteEnc Scte35Spec.
 Local Open Scope N_scope.
 
@@ -75,6 +75,19 @@ Theorem C09_encode_decode_canonical : forall s, canonical s ->
   new_scte35 (ser_splice_info s) = Ok (expected s) /\ fst (update_data (expected s)) = ser_section s.
 Proof. exact encode_decode_canonical. Qed.
 Print Assumptions C09_encode_decode_canonical.
+
+(* built purely through the creation and setter API: for EVERY canonical section the API can express (no foreign
+   descriptors, no splice_insert components: there is no setter for them; protocol_version, encryption_algorithm, cw_index
+   0) the explicit setter history `script_of s` from CreateSCTE35 (Proofs/ScteBuild.v: SetCommandInfo with the command's
+   setters, SetAdjustPTS, SetTier, SetDescriptors with every descriptor's setters) reaches the decoder's struct for s,
+   and UpdateData then yields exactly the canonical bytes of s *)
+Theorem C09_build_canonical : forall s, api_buildable s ->
+  fst (update_data (run_script create_scte35 (script_of s))) = ser_section s.
+Proof. exact build_canonical. Qed.
+Print Assumptions C09_build_canonical.
+Theorem C09_script_reaches : forall s, api_buildable s -> run_script create_scte35 (script_of s) = pre_state s.
+Proof. exact script_reaches. Qed.
+Print Assumptions C09_script_reaches.
 
 (* encoding is idempotent (for every state), and Data() afterwards is what UpdateData returned *)
 Theorem C09_encode_idempotent : forall st, fst (update_data (snd (update_data st))) = fst (update_data st).
@@ -291,3 +304,5 @@ Example C09_example_clean :
   clean ex_state.
 Proof. exact w_example_clean. Qed.
 
+Example C09_example_api_buildable : api_buildable ex_api.
+Proof. exact w_example_api_buildable. Qed.
